@@ -1,5 +1,7 @@
 (** C15 — todo placeholders and run-time overrides (run-time semantics Runtime/RT.v, Runtime/Load.v). *)
-From GV Require Import Base.Str Model.Env Model.Input Model.Compile Runtime.RT Runtime.Load.
+From GV Require Import Base.Str Model.Env Model.Input Model.Compile Runtime.RT Runtime.Load Proofs.RTProofs.
+From Coq Require Import List.
+Import ListNotations.
 
 (** constructing the container evaluates nothing: no parameter is cached, no constructor / function has run *)
 Theorem C15_lazy_load : forall E o c envv, rt_pcache (load E o c envv) = [] /\ rt_shared (load E o c envv) = [] /\ rt_trace (load E o c envv) = [].
@@ -49,3 +51,37 @@ Proof.
   destruct (str_eqb k n) eqn:Hk; cbn [negb]; [exact IH|]. cbn [lookup]. rewrite str_eqb_sym, Hk. exact IH.
 Qed.
 Print Assumptions C15_override_service_visible.
+
+(** ---- histories (Proofs/RTProofs.v) ---- *)
+
+(** whatever happened before and whatever follows, the GetParam right after an OverrideParam returns the override *)
+Theorem C15_override_then_get_history : forall (st : rt) (p : str) (v : Input.prim) (rest : list op),
+  exists (st2 : rt) (rs : list (result value)),
+    run_ops st (OOverrideParam p v :: OGetParam p :: rest) = (st2, ROk VNil :: ROk (value_of_prim v) :: rs).
+Proof. exact override_then_get. Qed.
+Print Assumptions C15_override_then_get_history.
+
+(** OverrideParam drops exactly the cached value of that parameter; OverrideService exactly the cached instance of that service *)
+Theorem C15_override_param_drops_own_cache_only : forall st p v q,
+  lookup p (rt_pcache (fst (step st (OOverrideParam p v)))) = None /\
+  (q <> p -> lookup q (rt_pcache (fst (step st (OOverrideParam p v)))) = lookup q (rt_pcache st)).
+Proof. intros. split; [apply override_param_own_cache | apply override_param_other_cache]. Qed.
+Print Assumptions C15_override_param_drops_own_cache_only.
+
+Theorem C15_override_service_drops_own_instance_only : forall st n o args kv,
+  In kv (rt_shared (fst (step st (OOverrideService n o args)))) <-> In kv (rt_shared st) /\ fst kv <> n.
+Proof. exact override_service_exactly. Qed.
+Print Assumptions C15_override_service_drops_own_instance_only.
+
+(** an error (a todo parameter, a failing function) is never cached: after the override the parameter evaluates afresh *)
+Theorem C15_error_not_cached : forall f st id st' e,
+  get_param f st id = (st', RErr e) -> lookup id (rt_pcache st') = lookup id (rt_pcache st).
+Proof. exact get_param_err_not_cached. Qed.
+Print Assumptions C15_error_not_cached.
+
+(** a todo service is an error and changes nothing *)
+Theorem C15_todo_service_changes_nothing : forall depsf f st b id d,
+  lookup id (rt_services st) = Some d -> sd_create d = CTodo -> cached_of (resolve_scope depsf st id) st b id = None ->
+  get depsf (S f) st b id = (st, b, RErr (s "service todo")).
+Proof. exact get_todo. Qed.
+Print Assumptions C15_todo_service_changes_nothing.
